@@ -102,6 +102,8 @@ pub fn full_alphabet(nrep: usize, ndocs: usize) -> Vec<Op> {
         v.push(Op::ObjRemove(r, 0));
         v.push(Op::ObjRemove(r, 1));
         v.push(Op::Read(r));
+        v.push(Op::StageSave(r));
+        v.push(Op::StageReplay(r));
         for k in 0..4 {
             v.push(Op::Travel(r, k));
         }
@@ -140,6 +142,15 @@ pub fn scenarios(thorough: bool) -> Vec<Scenario> {
         &[Op::Resolve(1, 0, 0), Op::Resolve(1, 0, 1), Op::Resolve(0, 0, 0), Op::Unstage(1), Op::ObjPut(1, 1)],
     ));
     v.push(long_chain_scenario("pair-long-chain", if thorough { 3 } else { 2 }, &[]));
+    // stage exports replayed elsewhere in time: save, discard, travel, replay, keep working
+    {
+        let a = arr_docs();
+        let mut sc = single_scenario("single-stage-travel", vec![a[0].clone(), a[2].clone(), a[3].clone()], if thorough { 6 } else { 5 },
+            &[Op::StageSave(0), Op::StageReplay(0), Op::Unstage(0), Op::Travel(0, 0), Op::Travel(0, 1), Op::Reload(0)]);
+        sc.key_opts.heads = true;
+        sc.prologue = vec![Op::Upd(0, 0), Op::Commit(0, 0), Op::Upd(0, 1), Op::Commit(0, 1)];
+        v.push(sc);
+    }
     // a flattened key disappearing / reappearing on one side while the other edits the root
     v.push(pair_scenario(
         "pair-rootkinds",
